@@ -164,6 +164,61 @@ def run(ctx):
                        c.where())
     ctx.floor("quotient / remainder computations on constants (both evaluators)", n_div, 4)
 
+    # ---------------- R7.7 the value whose range is tested was computed exactly
+    # validate_literal / TypeRange::normalized / canonical_felt252 classify a value as in range, below or above.  They
+    # can only do that if the value is the exact mathematical result: arithmetic on BigInt.  A result that went through
+    # fixed-width machine arithmetic (wrapping_*, overflowing_*, saturating_*, `+` on i128 ...) has already wrapped, so an
+    # overflowing 128-bit operation is classified as in range.
+    PRIM = ("i8", "i16", "i32", "i64", "i128", "isize", "u8", "u16", "u32", "u64", "u128", "usize")
+
+    def inexact_ops(fn, start_locals, depth=0, seen=None):
+        seen = seen if seen is not None else set()
+        out = []
+        src = set()
+        for l in start_locals:
+            src |= fn.derives_from(l) | {l}
+        for c in fn.calls():
+            if place_local(c.dest) not in src:
+                continue
+            nm = c.name()
+            if nm.startswith(("wrapping_", "overflowing_", "saturating_", "unchecked_")):
+                out.append(("%s" % nm, c.where()))
+            g_ = F.fns.get(c.path)
+            if g_ is not None and g_.body and g_.crate == fn.crate and depth < 2 and g_.path not in seen and nm not in ("normalized", "validate_literal"):
+                seen.add(g_.path)
+                out += inexact_ops(g_, [0], depth + 1, seen)
+                for cl in F.closures_of(g_):
+                    out += inexact_ops(cl, [0], depth + 1, seen)
+        for _, _, st in fn.stmts():
+            if st[0] == "a" and place_local(st[1]) in src and st[2][0] == "bin" and st[2][1] in ("Add", "Sub", "Mul", "AddWithOverflow", "SubWithOverflow", "MulWithOverflow",
+                                                                                              "AddUnchecked", "SubUnchecked", "MulUnchecked", "Shl", "ShlUnchecked"):
+                tys = [fn.local_ty(op_local(o)) for o in (st[2][2], st[2][3]) if op_local(o) is not None]
+                if any(t in PRIM for t in tys) and not all(t == "usize" for t in tys if t):
+                    out.append(("%s on %s" % (st[2][1], [t for t in tys if t in PRIM][0]), fn.where(st[3])))
+        return out
+    n_rt = 0
+    ordr = {}
+    for mod in ("cairo_lang_semantic::items::constant::", "cairo_lang_lowering::optimizations::const_folding::"):
+        for p, g in sorted(F.fns.items()):
+            if not g.body or not (p.startswith(mod) or p.startswith("<" + mod)):
+                continue
+            for c in g.calls():
+                if c.name() not in ("validate_literal", "normalized", "canonical_felt252") or not c.args:
+                    continue
+                val = c.args[-1] if c.name() != "normalized" else (c.args[1] if len(c.args) > 1 else c.args[-1])
+                vl_ = op_local(val)
+                if vl_ is None:
+                    continue
+                n_rt += 1
+                bad = inexact_ops(g, [vl_])
+                k_ = "%s|%s" % (last_seg(g.root), c.name())
+                ordr[k_] = ordr.get(k_, 0) + 1
+                ctx.ob("R7.7", "%s#%d" % (k_, ordr[k_]), not bad,
+                       "the value handed to %s is computed with exact (BigInt) arithmetic" % c.name() if not bad else
+                       "the value handed to %s went through fixed-width arithmetic (%s): it has already wrapped when its range is tested, so an "
+                       "overflow is classified as an in-range value (or the reverse)" % (c.name(), "; ".join("%s at %s" % b for b in bad[:3])), c.where())
+    ctx.floor("range tests of computed constants (both evaluators)", n_rt, 6)
+
     # ---------------- R7.6 a remainder is computed together with its quotient, and the quotient is validated
     # Run-time `%` is the second component of DivRem::div_rem, which fails when the quotient does not fit the type
     # (signed MIN % -1).  A compile-time remainder must therefore come from a div_rem whose quotient is validated.
